@@ -16,7 +16,8 @@ from vlib import core, sers, streamdrive as sd
 ID = "C01"
 CLAIMED = True
 TITLE = "Stream round-trip under any chunking"
-REQUIRED_THEOREMS = ["C01_sep_copy_roundtrip", "C01_sep_buffered_roundtrip", "C01_sep_buffered_room"]
+REQUIRED_THEOREMS = ["C01_sep_copy_roundtrip", "C01_sep_buffered_roundtrip", "C01_sep_buffered_room",
+                     "C01_fixed_copy_roundtrip", "C01_fixed_buffered_roundtrip", "C01_sep_producer_roundtrip"]
 LEVEL_TEXT = (
     "Machine-checked proof (Lean 4) that the modelled consumers and framers deliver exactly the sent frames for "
     "every packet list and every chunking / fill-size sequence, plus a differential correspondence check of the "
@@ -54,7 +55,22 @@ def _stream(case: dict) -> tuple[list[Any], list[bytes]]:
     return packets, frames
 
 
+def _run_producer(case: dict) -> list[str]:
+    ser = sers.build(case["spec"])
+    out = []
+    for h in case["datas"]:
+        try:
+            chunks = list(ser.incremental_serialize(bytes.fromhex(h)))
+        except ValueError:
+            out.append("refused")
+            continue
+        out.append("nothing" if not chunks else "chunk " + core.hexs(b"".join(chunks)))
+    return out
+
+
 def run_real(case: dict) -> list[str]:
+    if case.get("kind") == "producer":
+        return _run_producer(case)
     packets, frames = _stream(case)
     # a sentinel frame (the last packet once more) follows the stream: bytes wrongly retained after the
     # last packet would corrupt it ("nothing is left over", observed through public behaviour only)
@@ -76,6 +92,8 @@ def run_real(case: dict) -> list[str]:
 
 
 def model_input(case: dict, real: list[str]):
+    if case.get("kind") == "producer":
+        return f"prod {case['spec']['sep']}", [f"ser {h or '-'}" for h in case["datas"]]
     head = sers.model_head(case["spec"], case["path"], case.get("hint", 0))
     if head is None:
         return None
@@ -87,11 +105,24 @@ def model_input(case: dict, real: list[str]):
 
 
 def model_post(case: dict, lines: list[str]) -> list[str]:
+    if case.get("kind") == "producer":
+        return lines
     lines = [ln for ln in lines if not ln.startswith("held ")]
     return sd.codec_items(case["spec"], lines, case.get("conv", False))
 
 
 def oracle(case: dict, real: list[str]) -> str | None:
+    if case.get("kind") == "producer":
+        # whatever the producer emits must be cut out by the receiver as exactly one frame holding the stripped data
+        sep = bytes.fromhex(case["spec"]["sep"])
+        for h, ln in zip(case["datas"], real):
+            if ln.startswith("chunk "):
+                b = bytes.fromhex(ln.split()[1])
+                if b.find(sep) != len(b) - len(sep):
+                    return f"producer accepted {h}: emitted {b.hex()} whose first separator is not the appended one"
+            elif ln.startswith("harness-exc"):
+                return ln
+        return None
     if "crashed" in real:
         return "RuntimeError escaped from the consumer (write buffer exhausted)"
     packets = [sers.dec_val(v) for v in case["packets"]]
@@ -109,6 +140,8 @@ def oracle(case: dict, real: list[str]) -> str | None:
 
 
 def nontrivial(case: dict, real: list[str]) -> str | None:
+    if case.get("kind") == "producer":
+        return "producer/" + "+".join(sorted({ln.split()[0] for ln in real}))
     aux = _aux.get(core.case_digest(case))
     if not aux:
         return None
@@ -130,6 +163,11 @@ def nontrivial(case: dict, real: list[str]) -> str | None:
 
 
 def shrink(case: dict):
+    if case.get("kind") == "producer":
+        for i in range(len(case["datas"])):
+            if len(case["datas"]) > 1:
+                yield {**case, "datas": case["datas"][:i] + case["datas"][i + 1:]}
+        return
     n = len(case["packets"])
     for i in range(n):
         if n > 1:
@@ -146,6 +184,8 @@ def shrink(case: dict):
 
 
 def known_key(case: dict, real: list[str], why: str) -> str:
+    if case.get("kind") == "producer":
+        return "producer"
     return f"ser={case['spec']['k']},path={case['path']}"
 
 
@@ -169,6 +209,17 @@ def corpus() -> list[dict]:
 
 
 def generate(rng, tier: str, boost: int):
+    for _ in range((300 if tier == "quick" else 6000) * boost):
+        sephex = rng.choice(["0a", "0d0a", "7c7c", "616162", "6161", "616261"])
+        sep = bytes.fromhex(sephex)
+        alphabet = bytes(set(sep)) + b"x"
+        datas = []
+        for _ in range(rng.randint(1, 6)):
+            d = bytes(rng.choice(alphabet) for _ in range(rng.randint(0, 7)))
+            if rng.random() < 0.3:
+                d += sep * rng.randint(1, 2)
+            datas.append(d.hex())
+        yield {"kind": "producer", "spec": {"k": "autosep", "sep": sephex, "limit": 64, "check": True}, "datas": datas}
     n = (2500 if tier == "quick" else 60000) * boost
     for _ in range(n):
         spec = sers.gen_spec(rng)
